@@ -65,6 +65,13 @@ func stmtCount(n ast.Node) int {
 	return c
 }
 
+// activeProp restricts generation to the clauses serving one property (tagged with it, or untagged).
+var activeProp string
+
+func on(tags []string) bool {
+	return activeProp == "" || hasTag(tags, activeProp)
+}
+
 func VerifyUnit(prog *Program, cs *ContractSet, uc *UnitContract) *UnitResult {
 	res := &UnitResult{UC: uc}
 	if uc.Lemma {
@@ -76,6 +83,11 @@ func VerifyUnit(prog *Program, cs *ContractSet, uc *UnitContract) *UnitResult {
 		return res
 	}
 	res.Unit = fu
+	if uc.Trusted {
+		// assumed contract: the body is not verified (listed under assumptions wherever it is used)
+		res.SrcRange = prog.srcRange(fu.Body) + " (trusted, body not verified)"
+		return res
+	}
 	x := NewExec(prog, cs, fu, uc)
 	res.Exec = x
 	st := newState()
@@ -113,6 +125,9 @@ func VerifyUnit(prog *Program, cs *ContractSet, uc *UnitContract) *UnitResult {
 	spIn := x.specCtxAt(startPos, nil)
 	spIn.old = nil
 	for _, r := range uc.Requires {
+		if !on(r.Tags) {
+			continue
+		}
 		x.assume(st, x.specBool(r, st, spIn), "requires:"+r.Name)
 	}
 	// vacuity cover: the preconditions must be satisfiable
@@ -214,6 +229,9 @@ func VerifyUnit(prog *Program, cs *ContractSet, uc *UnitContract) *UnitResult {
 		}
 		spOut := x.specCtxAt(endPos, nil)
 		for _, en := range append(append([]*Clause{}, uc.Ensures...), uc.ExitEnsures...) {
+			if !on(en.Tags) {
+				continue
+			}
 			x.assert(final, x.specBool(en, final, spOut), "post", fmt.Sprintf("%s/post:%s", uc.ID(), en.Name), en.Tags, token.NoPos, en.Text)
 		}
 		// frame: everything written must be covered by a modifies clause
@@ -228,9 +246,18 @@ func VerifyUnit(prog *Program, cs *ContractSet, uc *UnitContract) *UnitResult {
 		if ex != nil {
 			spOut := x.specCtxAt(endPos, nil)
 			for _, en := range uc.ExitEnsures {
+				if !on(en.Tags) {
+					continue
+				}
 				x.assert(ex, x.specBool(en, ex, spOut), "post-exit", fmt.Sprintf("%s/post-exit:%s", uc.ID(), en.Name), en.Tags, token.NoPos, en.Text)
 			}
 		}
+	}
+	for _, as := range uc.AtStmts {
+		if as.Used == 0 {
+			res.Errors = append(res.Errors, fmt.Sprintf("contract cannot bind: %s: no statement starts with %q", uc.ID(), as.Anchor))
+		}
+		as.Used = 0
 	}
 	res.Obligations = x.obligations
 	res.Errors = append(res.Errors, x.errs...)
@@ -346,11 +373,17 @@ func verifyLemma(prog *Program, cs *ContractSet, uc *UnitContract, res *UnitResu
 	x.entry = st.clone()
 	sp := &SpecCtx{bound: map[string]Value{}, macros: []map[string]*Macro{uc.Macros, cs.Global}, pkg: anyUnit.Pkg.Types, scope: nil, old: x.entry}
 	for _, r := range uc.Requires {
+		if !on(r.Tags) {
+			continue
+		}
 		x.assume(st, x.specBool(r, st, sp), "assume:"+r.Name)
 	}
 	ob := &Obligation{Name: uc.ID() + "/cover:assumptions", Unit: uc.ID(), Kind: "cover", PC: st.pc, Goal: False, NAss: len(x.assumptions), Text: "lemma hypotheses are satisfiable", Expect: "sat", exec: x}
 	x.obligations = append(x.obligations, ob)
 	for _, en := range uc.Ensures {
+		if !on(en.Tags) {
+			continue
+		}
 		x.assert(st, x.specBool(en, st, sp), "lemma", fmt.Sprintf("%s/lemma:%s", uc.ID(), en.Name), en.Tags, token.NoPos, en.Text)
 	}
 	res.Obligations = x.obligations
